@@ -1,2 +1,3 @@
 -- root of the library: imports every property file (so `lake build FhVerif` checks all theorems)
 import FhVerif.Props.C32
+import FhVerif.Props.C30
